@@ -177,6 +177,9 @@ func (a *Announce) getPeers(ctx context.Context, addr krpc.NodeAddr) traversal.Q
 		select {
 		case a.Peers <- peersValues:
 		case <-a.traversal.Stopped():
+		// The traversal can't finish stopping while we're still in here, so give up on delivery as
+		// soon as it starts to.
+		case <-ctx.Done():
 		}
 	}
 	return res.TraversalQueryResult(addr)
